@@ -374,12 +374,14 @@ ExpFillEmpty(c, s) ==
 
 \* ---------------------------------------------------------------- fraction (positive integers; decided where the quotient is a
 \* dyadic rational with at most three binary places, so that every floating-point evaluation order is exact)
-Dyadic8(n, d) == (8 * n) % d = 0
+Dyadic8(n, d) == (8 * (IF n < 0 THEN 0 - n ELSE n)) % d = 0
 Eighths == <<"", "125", "25", "375", "5", "625", "75", "875">>
 \* n/d as decimal text; an integer value is written "1" by the worked examples and "1.0" by the usage text: rd says which
-DyadicText(n, d, rd) ==
+DyadicTextPos(n, d, rd) ==
   LET e == (8 * n) \div d IN
   IF e % 8 = 0 THEN ToString(e \div 8) \o (IF rd = "1.0" THEN ".0" ELSE "") ELSE ToString(e \div 8) \o "." \o Eighths[(e % 8) + 1]
+\* (values of mixed sign: a negative numerator is the negated text; zero is written "0")
+DyadicText(n, d, rd) == IF n < 0 THEN "-" \o DyadicTextPos(0 - n, d, rd) ELSE DyadicTextPos(n, d, rd)
 ExpFraction(c, s, rd) ==
   LET f == c.f[1]
       mul == IF HasOpt(c, "-p") THEN 100 ELSE 1
